@@ -588,8 +588,8 @@ class XPathToken(Token[ta.XPathTokenType]):
                     if isinstance(op2, (str, Integer, AbstractQName, AnyURI)):
                         raise TypeError(msg.format(type(op1), type(op2)))
                 case Integer():
-                    if isinstance(op2, float):
-                        yield get_double(op1), op2
+                    if isinstance(op2, (float, UntypedAtomic)):
+                        yield get_double(op1), op2  # the untyped operand is cast to xs:double
                         continue
                     elif isinstance(op2, (str, AbstractQName, AnyURI, bool)):
                         raise TypeError(msg.format(type(op1), type(op2)))
@@ -619,6 +619,9 @@ class XPathToken(Token[ta.XPathTokenType]):
                 case UntypedAtomic():
                     if isinstance(op2, UntypedAtomic):
                         yield str(op1), str(op2)
+                        continue
+                    elif isinstance(op2, Integer):
+                        yield op1, get_double(op2)
                         continue
                     elif isinstance(op2, AbstractQName):
                         yield type(op2).make(op1, parser=self.parser), op2
